@@ -29,7 +29,7 @@ MUTS = [
  ("M9", "sub-selections taken from the first node only (no merge)", EX, "                        for field in nodes\n                        if field.selection_set", "                        for field in nodes[:1]\n                        if field.selection_set"),
  ("M10", "possible-type check dropped in complete_value", EX, "                if not self.schema.is_possible_type(field_type, runtime_type):", "                if False:"),
  ("M11", "execute_fields in reversed key order", BX, "        for key, field_def, nodes in self._iterate_fields(parent_type, fields):\n            result[key]", "        for key, field_def, nodes in reversed(list(self._iterate_fields(parent_type, fields))):\n            result[key]"),
- ("M12", "resolver error swallowed without an error entry", BX, "        except (CoercionError, ResolverError) as err:\n            self.add_error(err, path, node)\n            return None", "        except (CoercionError, ResolverError) as err:\n            return None"),
+ ("M12", "resolver error swallowed without an error entry", BX, "            except ResolverError as err:\n                self.add_error(err, path, node)\n                return None", "            except ResolverError as err:\n                return None"),
  ("M15", "7b8e151 reverted: BlockingExecutor lets a ResolverError raised while COMPLETING a value escape", BX, "        except ResolverError as err:\n            # Same as `Executor.resolve_field`", "        except ZeroDivisionError as err:\n            # Same as `Executor.resolve_field`"),
  ("M16", "4e87d3d reverted: CoercionError of a directive condition not converted in ResolutionContext.collect_fields", "src/py_gql/execution/wrappers.py", "            except CoercionError as err:\n                # Invalid `@skip`", "            except ZeroDivisionError as err:\n                # Invalid `@skip`"),
  ("M17", "4e87d3d partly reverted: execute() does not catch the ResolverError of the ROOT selection set", "src/py_gql/execution/execute.py", "    except ResolverError as err:\n        # The root selection set itself", "    except ZeroDivisionError as err:\n        # The root selection set itself"),
